@@ -1727,8 +1727,11 @@ namespace
 	      {
 		Dwarf_Attribute at = dwpp_attr (die, atname2);
 		Dwarf_Die integrated_die = dwpp_formref_die (at);
+		// Pass DWCTX along, so that if the attribute is found yet
+		// deeper, the DIE that actually holds it is reported, not
+		// the one that we started with.
 		auto ret = find_attribute (integrated_die, atname, d,
-					   ret_at, nullptr);
+					   ret_at, dwctx);
 
 		// If this call found anything, translate from found
 		// to found_integrated and create the accompanying
